@@ -331,6 +331,7 @@ func runC14(args []string) error {
 	if err := c14Generate(co, cf, work); err != nil {
 		return err
 	}
+	co.extra["x_max_vm_steps_of_a_call"] = c14MaxSteps
 	keys := []string{}
 	for k := range co.extra {
 		keys = append(keys, k)
